@@ -123,7 +123,7 @@ DerEnc(env, T, v, impl) ==
          IN IF T.mode = "E" THEN TLV(tg, TRUE, DerEnc(env, T.t, v, NoTag))
             ELSE DerEnc(env, T.t, v, tg)
     [] IsRef(T) -> DerEnc(env, Follow(env, T), v, impl)
-    [] T.k = "CHOICE" -> DerEnc(env, CompByName(T, AltOf(v)).t, AltVal(v), NoTag)
+    [] ChoiceLike(T.k) -> DerEnc(env, CompByName(T, AltOf(v)).t, AltVal(v), NoTag)      \* open type: the value's own encoding
     [] T.k = "SEQUENCE" -> TLV(TagOr(impl, T), TRUE, ConcatAll(CompEncs(env, T, v)))
     [] T.k = "SET" ->
          LET cs == AllComps(T)
